@@ -6,7 +6,7 @@ PROPS = {}
 
 # stated bounds of the replay enumerators (used as bounded stand-in / bounded cross-check; never counted as proved)
 REPLAY_BOUNDS = {
-    'bdd': 'straight-line programs of RobddBuilder operations over 3 variables: all binary ops on all pairs of literals followed by cond/exists/neg/compose/semhash, x all 6 variable orders x both cache kinds (7776 programs), plus 3000 seeded random programs of 7-16 operations incl. condition_model on 0-2 pairs and and_lst/or_lst of 0-3 diagrams, plus new_var on 7 orders of 1-3 variables x 2 polarities (semantics of old and new diagrams; every literal and every and/or/xor of two literals rebuilt after one and after two extensions must be pointer-equal to the one built before); truth tables by walking the nodes; smooth over all variables: unsmoothed_wmc in FiniteField<1000000007> with 3 weight vectors (unit, non-normalised, with a zero) = explicit weighted sum over models',
+    'bdd': 'straight-line programs of RobddBuilder operations over 3 variables (and 4 variables: a systematic family o1(o2(v0,v1), [neg] o3(v2,v3)) followed by every condition / exists under all 24 orders (thinned), and every third random program): all binary ops on all pairs of literals followed by cond/exists/neg/compose/semhash, x all 6 variable orders x both cache kinds (7776 programs), plus 3000 seeded random programs of 7-16 operations incl. condition_model on 0-2 pairs and and_lst/or_lst of 0-3 diagrams, plus new_var on 7 orders of 1-3 variables x 2 polarities (semantics of old and new diagrams; every literal and every and/or/xor of two literals rebuilt after one and after two extensions must be pointer-equal to the one built before); truth tables by walking the nodes; smooth over all variables: unsmoothed_wmc in FiniteField<1000000007> with 3 weight vectors (unit, non-normalised, with a zero) = explicit weighted sum over models',
     'table': 'BackedRobinhoodTable with capacity 4 and 8: every sequence of <= 4 (cap 4) / <= 3 (cap 8) insertions with hashes in 0..2*cap followed by re-requesting each element, plus 200 seeded random sequences of 12 insertions',
     'lru': 'Lru<u32,u32> with initial capacity 2 or 4: 3000 seeded random insert/get sequences (up to 64 operations, up to 15 keys, colliding hashes, frequent overwrites, final read-back)',
     'ff': 'FiniteField over all 7 exported primes: 12 residues (0,1,2,3,P/2,P/2+1,P-2,P-1 and 4 seeded random) in all pairs (x3 third operands for the ternary laws), 9 operations/laws',
